@@ -18,7 +18,8 @@ EXPLANATION = (
     "the expiration clamp yields a non-negative integer string, and Message has no shared mutable state between instances; (R6) "
     "Message.acknowledge(multiple=False) acknowledges exactly the delivery tag taken from the delivery; (R7) the RPC request carries the "
     "reply queue, correlation id, function subject and mandatory flag; the two bindings agree on all of this. Not decided: affinity of actual "
-    "deliveries with competing consumers; wire frames.")
+    "deliveries with competing consumers; wire frames."
+    ' (R9) the id under which dispatch retains a delivery is never None (a message without a message id is given one or refused); reported on the current tree as D76.')
 RULE_TEXT = "obligation = one publish site / folded address x option / message field x direction x binding; non-trivial = distinct (rule, site)"
 
 BINDINGS = ("amqp_0_9_1_messaging", "amqp_0_9_1_messaging_asyncio")
@@ -313,6 +314,8 @@ def r7(chk, ctx):
 
 
 def run(chk, ctx):
+    from . import round5
+    round5.retained_delivery_has_an_id(chk, ctx, "C19.R9")   # the correlation id of a task request is the id of the event that asked for it
     from . import generic
     generic.definite_assignment(chk, ctx, ['amqp_0_9_1_messaging', 'amqp_0_9_1_messaging_asyncio'], "C19.DA")   # no local is read before it is bound (UnboundLocalError = an arbitrary exception)
     r1(chk, ctx)
